@@ -85,6 +85,12 @@ theorem groups_spec (n : Nat) (hn : 3 ≤ n ∧ n ≤ 8) (bits : W) (hb : Sub bi
       ∀ g, g ∈ gs ↔ IsComp n bits g ∧ Big g :=
   Roads.groups_spec n hn bits hb
 
+/-- `Big g` in `groups_spec` is "at least two squares" as a popcount -/
+theorem big_iff_cnt (g : W) : Big g ↔ 2 ≤ cnt g := Roads.big_iff_cnt g
+
+/-- the model's `popcount` (Kernighan loop, fuel 64) is the number of set bits -/
+theorem popcount_eq_cnt (x : W) : Tak.popcount x = cnt x := Roads.popcount_eq_cnt x
+
 /-- different components share no square, so `Nodup` above means "each component once" -/
 theorem components_disjoint {n : Nat} {all g h : W} (hg : IsComp n all g) (hh : IsComp n all h) {j : Nat}
     (hgj : g.getLsbD j = true) (hhj : h.getLsbD j = true) : g = h :=
@@ -144,6 +150,14 @@ theorem gameOver_refines (p : Pos) (wf : WFBoard p) (hr : ReservesOK p) :
     p.gameOver = ((Spec.outcome (Spec.abs p)).over, (Spec.outcome (Spec.abs p)).winner) :=
   Roads.gameOver_refines p wf hr
 
+/-- **`ptn.ResultFromGame`**: the result string is the rule book's ("R-0", "0-F", "1/2-1/2", …), and the
+call panics exactly when the rule book says the game is still running. -/
+theorem result_refines (p : Pos) (wf : WFBoard p) (hr : ReservesOK p) :
+    p.resultFromGame = match Spec.result (Spec.abs p) with
+      | some r => .ok r
+      | none => .error (.panic "ResultFromGame: game is not over") :=
+  Roads.result_refines p wf hr
+
 /-! ## 6. the hypotheses are satisfiable and checkable -/
 
 /-- the invariant as an executable test (run on every sampled position by the `wfb` op) -/
@@ -190,5 +204,7 @@ def ex3 (wc : Nat) : Pos := exBoard 3 0b000000011#64 0b100000000#64 0#64 0#64 20
 example : WFBoard (ex3 1) ∧ ReservesOK (ex3 1) := (wfBoardB_iff _).mp (by decide)
 example : (ex3 1).winDetails = ⟨false, .flats, .none, 2, 1⟩ := by decide
 example : (ex3 0).winDetails = ⟨true, .flats, .white, 2, 1⟩ := by decide
+example : (ex3 0).resultFromGame.toOption = some "F-0" ∧ ex8.resultFromGame.toOption = some "R-0" ∧
+    (ex3 1).resultFromGame.toOption = none := by decide
 
 end C02
